@@ -870,7 +870,7 @@ def replay(prop, name, model):
     for k, v in vals.items():
         m = re.search(r"\(define-fun %s \(\) \(_ BitVec (\d+)\)\s+#(x|b)" % k, model)
         conv[k] = int(v, 16 if m.group(2) == "x" else 2)
-    rp_dir = os.path.join(VERIF, "evidence", "replay")
+    rp_dir = os.path.join(os.environ.get("VERIF_EVIDENCE_DIR") or os.path.join(VERIF, "evidence"), "replay")
     os.makedirs(rp_dir, exist_ok=True)
     path = os.path.join(rp_dir, "%s-smt-%s.json" % (prop, name))
     rp = {"kind": "smt", "property": prop, "obligation": name, "values": conv}
@@ -886,6 +886,16 @@ def native_timestamp_check(vals):
     drv = os.path.join(VERIF, "replay")
     if not os.path.exists(os.path.join(drv, "Cargo.toml")):
         return False, "replay driver missing"
+    tdir = os.path.join(VERIF, "build", "replay-target")
+    if REPO != "/repo":
+        # campaigns check a scratch copy of the repository: the driver must be built against that copy
+        import shutil, tempfile
+        tmp = tempfile.mkdtemp(prefix="verif-replay-", dir=os.environ.get("VERIF_TMP", "/tmp"))
+        shutil.copytree(drv, os.path.join(tmp, "replay"), ignore=shutil.ignore_patterns("target"))
+        drv = os.path.join(tmp, "replay")
+        ct = open(os.path.join(drv, "Cargo.toml")).read().replace('path = "/repo"', 'path = "%s"' % REPO)
+        open(os.path.join(drv, "Cargo.toml"), "w").write(ct)
+        tdir = os.path.join(tmp, "target")
     args = []
     if "t" in vals:
         args = ["ts-to", str(vals["t"])]
@@ -897,8 +907,10 @@ def native_timestamp_check(vals):
     env = dict(os.environ)
     env["CARGO_NET_OFFLINE"] = "true"
     p = subprocess.run(["cargo", "run", "--offline", "--quiet", "--manifest-path", os.path.join(drv, "Cargo.toml"),
-                        "--target-dir", os.path.join(VERIF, "build", "replay-target"), "--"] + args,
+                        "--target-dir", tdir, "--"] + args,
                        capture_output=True, text=True, env=env, timeout=900)
+    if REPO != "/repo":
+        shutil.rmtree(tmp, ignore_errors=True)
     return p.returncode == 1, (p.stdout + p.stderr)[-2000:]
 
 
